@@ -93,6 +93,38 @@ func genSources(g *Gen, t *fstree.Tree, multi bool) []SrcArg {
 		return SrcArg{Path: "", Slash: true}
 	}
 	args := []SrcArg{one()}
+	if multi && len(dirs) >= 2 && g.R.Intn(6) == 0 {
+		// two directory sources with trailing slashes: their contents merge in
+		// the destination root (only when no top-level name occurs in both)
+		a, b := dirs[g.R.Intn(len(dirs))], dirs[g.R.Intn(len(dirs))]
+		nested := strings.HasPrefix(a+"/", b+"/") || strings.HasPrefix(b+"/", a+"/")
+		if a != b && !nested {
+			top := func(d string) map[string]bool {
+				m := map[string]bool{}
+				for _, e := range t.Entries {
+					p := string(e.Path)
+					if strings.HasPrefix(p, d+"/") {
+						rest := p[len(d)+1:]
+						if i := strings.IndexByte(rest, '/'); i >= 0 {
+							rest = rest[:i]
+						}
+						m[rest] = true
+					}
+				}
+				return m
+			}
+			ta, tb := top(a), top(b)
+			clash := false
+			for k := range ta {
+				if tb[k] {
+					clash = true
+				}
+			}
+			if !clash {
+				return []SrcArg{{Path: fstree.Name(a), Slash: true}, {Path: fstree.Name(b), Slash: true}}
+			}
+		}
+	}
 	if multi && g.R.Intn(3) == 0 {
 		// additional sources with distinct basenames, none contained in another
 		seen := map[string]bool{}
